@@ -24,7 +24,7 @@ Section Spec.
     match n with
     | NPath id given =>
         if present base given then Ok [(id, given, base, join base given)] else Err
-    | NLoad given body | NListFile given body =>
+    | NLoad given body | NListFile _ given body =>
         if present base given then spec_list spec_node (dir_of base given) body else Err
     | NInline body => spec_list spec_node base body
     | NBad => Err
@@ -35,16 +35,20 @@ Section Spec.
     if present cwd0 top then spec_list spec_node (dir_of cwd0 top) body else Err.
 
   (* ---- guard of C19_relative_follows_config: finding class 4 (list-file-relative) is its complement.
-     A list file named by a spelling that does not lead back to the same directory when read from the
-     list file's own directory (i.e. practically every relative spelling) is outside the guard. *)
+     A list file whose content is loadable as YAML and which is named by a spelling that does not lead back to
+     the same directory when read from the list file's own directory (i.e. practically every relative spelling)
+     is outside the guard — unless the repair has landed (lf_fixed). *)
+  Variable lf_fixed : bool.
+
   Fixpoint lf_guard (base : str) (n : node) : bool :=
     match n with
     | NPath _ _ | NBad => true
     | NLoad given body => negb (present base given) || forallb (lf_guard (dir_of base given)) body
-    | NListFile given body =>
+    | NListFile yaml_ok given body =>
         negb (present base given)
         || (let d := dir_of base given in
-            present d given && str_eqb (dir_of d given) d && forallb (lf_guard d) body)
+            (lf_fixed || negb yaml_ok || (present d given && str_eqb (dir_of d given) d))
+            && forallb (lf_guard d) body)
     | NInline body => forallb (lf_guard base) body
     end.
 
